@@ -108,7 +108,12 @@ func (c *c17Case) Oracle() (bool, string) {
 	return checkSweep("the last step")
 }
 
-func (c *c17Case) Sx() string { return "" }
+func (c *c17Case) Sx() string {
+	if c.Fatal != "" {
+		return ""
+	}
+	return sxDbProgram(c.Opts, c.Steps, c.Sweeps, false)
+}
 func (c *c17Case) Nontrivial() bool {
 	rej, acc := 0, 0
 	for _, s := range c.Steps {
